@@ -14,6 +14,7 @@ Search: implementation only, metamorphic: every rewrite kind at sampled sites of
         std.trace at binding positions outside function bodies fire at most once.
 """
 import os, sys, re, json, glob, ast
+from collections import Counter
 import vlib
 from vlib import hx, hxl, cps, uncps
 
@@ -25,7 +26,8 @@ THEOREMS = ['C04_coincidence', 'C04_rw_local_name', 'C04_rw_local_name_results',
             'C04_rw_dead_field_value', 'C04_rw_dead_param', 'C04_dead_code_irrelevance',
             'C04_dead_bind_irrelevance', 'C04_error_in_dead_code', 'C04_run_once', 'C04_done_is_stable',
             'C04_never_back_to_pending', 'C04_set_done_assert_never_fires', 'C04_inprogress_reentry_fails',
-            'C04_nonvacuous_rewrites', 'C04_nonvacuous_machine']
+            'C04_laziness_monotone', 'C04_laziness_monotone_arg',
+            'C04_nonvacuous_rewrites', 'C04_nonvacuous_laziness', 'C04_nonvacuous_machine']
 ALLOWED_AXIOMS = set()
 TRANSLATORS = []
 
@@ -1090,9 +1092,11 @@ def metamorphic(run, bases, impl_exe, rng, per_prog, label):
                 run.violation('once-instrumentation-changes-result', 'tracing binding positions of %s changes the outcome: %s' % (b.label, why), replay)
                 continue
             oncable = set('once-%d' % i for i, x in enumerate(b.sites.binds) if not x[2])
-            multi = sorted(set(m for m in tr if m in oncable and tr.count(m) > 1))
+            replay['oncable'] = sorted(oncable)
+            cnt = Counter(tr)
+            multi = sorted(m for m, k in cnt.items() if m in oncable and k > 1)
             if multi:
-                run.violation('evaluated-more-than-once', 'binding position(s) %s of %s evaluated more than once (%s)' % (multi[:4], b.label, [tr.count(m) for m in multi[:4]]), replay)
+                run.violation('evaluated-more-than-once', 'binding position(s) %s of %s evaluated more than once (%s)' % (multi[:4], b.label, [cnt[m] for m in multi[:4]]), replay)
                 continue
             run.count(label + ':once-sites', int(where))
             run.count(label + ':once-sites-fired', len(set(tr) & oncable))
@@ -1280,14 +1284,15 @@ def run_k(run, progs, impl_exe, model_exe, label):
                 run.count(label + ':model-out-of-fuel')
             continue
         # once-count on the implementation
-        multi = sorted(set(m for m in ci[2] if m in outside and ci[2].count(m) > 1))
+        cnt_i, cnt_m = Counter(ci[2]), Counter(cm[2])
+        multi = sorted(m for m, k in cnt_i.items() if m in outside and k > 1)
         if multi:
             run.violation('evaluated-more-than-once', 'binding position(s) %s outside every function body evaluated more than once in %s' % (multi[:4], text[:300]), replay)
             continue
-        over = [m for m in set(ci[2]) if ci[2].count(m) > cm[2].count(m)]
+        over = [m for m, k in cnt_i.items() if k > cnt_m.get(m, 0)]
         why = compare_k(ci, cm)
         if why is None and over:
-            why = 'message %r fires %d times on the implementation, %d under call-by-name' % (over[0], ci[2].count(over[0]), cm[2].count(over[0]))
+            why = 'message %r fires %d times on the implementation, %d under call-by-name' % (over[0], cnt_i[over[0]], cnt_m.get(over[0], 0))
         if why:
             # the model provably satisfies the rewrite laws and is call-by-name; a differing value / error /
             # demanded-set on the implementation is a failure of "evaluates as call-by-need" on this input
@@ -1322,7 +1327,7 @@ def check(run):
 
     # ---- K
     progs = []
-    nk = 1500 if quick else 30000
+    nk = 1200 if quick else 30000
     for i in range(nk):
         e, g = gen_program(rng, rng.choice([15, 30, 60, 100]))
         text = show(e, rng)
@@ -1345,13 +1350,13 @@ def check(run):
     for rel, src in ui_pass_programs():
         bases.append(Base('ui-tests/pass/' + rel, src, False))
     n_ui = len(bases)
-    nl = 150 if quick else 3000
+    nl = 120 if quick else 3000
     for key, e, text, outside in progs[:nl]:
         bases.append(Base('lazycore-' + key, text.encode('utf-8'), True))
-    nr = 250 if quick else 5000
+    nr = 200 if quick else 5000
     for i in range(nr):
         bases.append(Base('rich-%d' % i, gen_rich(rng).encode('utf-8'), False))
-    used = metamorphic(run, bases, impl_exe, rng, 8 if quick else 20, 'S')
+    used = metamorphic(run, bases, impl_exe, rng, 6 if quick else 20, 'S')
     run.count('S:base-programs', used)
     run.count('S:ui-tests-and-corpus-bases', n_ui)
 
@@ -1369,7 +1374,7 @@ def replay(run, path):
         print('implementation:', ci)
         print('model         :', cm)
         outside = set(r.get('outside', []))
-        multi = sorted(set(m for m in ci[2] if m in outside and ci[2].count(m) > 1))
+        multi = sorted(m for m, k in Counter(ci[2]).items() if m in outside and k > 1)
         why = None
         if multi:
             why = 'evaluated more than once: %s' % multi
@@ -1392,7 +1397,8 @@ def replay(run, path):
             tr = [m for m in c1[2] if m.startswith('once-')]
             rest = [m for m in c1[2] if not m.startswith('once-')]
             why = same_outcome(c0, (c1[0], c1[1], rest))
-            multi = sorted(set(m for m in tr if tr.count(m) > 1))
+            oncable = set(r.get('oncable', tr))
+            multi = sorted(m for m, k in Counter(tr).items() if k > 1 and m in oncable)
             if why or multi:
                 run.violation(j.get('key', 'once'), why or ('evaluated more than once: %s' % multi), r)
         else:
